@@ -225,9 +225,9 @@ def _esig(e: BaseException) -> str:
         import traceback
 
         names = [fr.name for fr in traceback.extract_tb(e.__traceback__)]
-        if names.count("receive_frame") < 10 and \
+        if names.count("process_frame") + names.count("route_frame") < 10 and \
                 names.count("_get_arp_cache_mac_address") + names.count("_get_arp_cache_network_interface") >= 10:
-            return "RecursionError:arp-resolution-loop"  # the resolver calls itself, no frame travels in the cycle
+            return "RecursionError:arp-resolution-loop"  # the resolver calls itself; no frame is forwarded in the cycle
         if names.count("send_arp_request") >= 10:
             return "RecursionError:arp-request-loop"
         if names.count("receive_payload_from_session_manager") >= 10:
